@@ -2,6 +2,7 @@ import Rivaas.Model.Bind
 import Rivaas.Model.BindAsIs
 import Rivaas.Spec.Bind
 import Rivaas.Lemmas.BindVal
+import Rivaas.Lemmas.BindFlatten
 /-
 C04 — Request binding is faithful, total and bounded. Property theorems.
 -/
@@ -9,134 +10,6 @@ namespace Rivaas.C04
 open Rivaas Rivaas.Bind
 
 /-! ## 1. Index paths of flattened (promoted) fields are faithful — every embedding depth -/
-
-/-- `reflect.Type.FieldByIndex`: follow an index path through struct and pointer-to-struct fields -/
-def fieldAt : List Fld → List Nat → Option Fld
-  | _, [] => none
-  | fs, [i] => fs[i]?
-  | fs, i :: j :: rest =>
-    match fs[i]? with
-    | some (_, t) =>
-      match structFields? t with
-      | some fs' => fieldAt fs' (j :: rest)
-      | none => none
-    | none => none
-
-theorem lemma_mkInfo {P : Params} {tag : Tag} {idx : List Nat} {h : FieldHdr} {t : Ty} {f : FieldInfo}
-    (hm : f ∈ (mkInfo P tag idx h t).toList) : f.index = idx ∧ f.ty = t ∧ f.name = h.name ∧ f.dflt = h.dflt := by
-  unfold mkInfo at hm
-  simp only at hm
-  split at hm
-  · simp at hm
-  · split at hm
-    · simp at hm
-    · simp only [Option.toList_some, List.mem_singleton] at hm
-      subst hm
-      simp
-
-/-- what a flattened entry must satisfy relative to the field list `all` it was produced from -/
-def Faithful (all : List Fld) (q : List Nat) (f : FieldInfo) : Prop :=
-  ∃ h t, fieldAt all q = some (h, t) ∧ f.ty = t ∧ f.name = h.name ∧ f.dflt = h.dflt
-
-theorem lemma_fieldAt_cons {all : List Fld} {i : Nat} {h : FieldHdr} {t : Ty} {fs' : List Fld} {q : List Nat}
-    (h0 : all[i]? = some (h, t)) (hs : structFields? t = some fs') (hq : q ≠ []) :
-    fieldAt all (i :: q) = fieldAt fs' q := by
-  cases q with
-  | nil => exact absurd rfl hq
-  | cons j r => simp [fieldAt, h0, hs]
-
-mutual
-theorem lemma_flattenFld (P : Params) (tag : Tag) (pre : List Nat) (i : Nat) (h : FieldHdr) :
-    ∀ (t : Ty) (f : FieldInfo), f ∈ flattenFld P tag pre i h t →
-      ∃ q, q ≠ [] ∧ f.index = pre ++ q ∧ ∀ all : List Fld, all[i]? = some (h, t) → Faithful all q f
-  | .struct fs, f, hf => by
-    unfold flattenFld at hf
-    split at hf
-    · simp at hf
-    · split at hf
-      · obtain ⟨q, hq0, hq, hall⟩ := lemma_flattenFs P tag (pre ++ [i]) 0 fs f hf
-        refine ⟨i :: q, by simp, by simp [hq], ?_⟩
-        intro all h0
-        have := hall fs (fun k => by simp)
-        unfold Faithful at *
-        rw [lemma_fieldAt_cons (fs' := fs) h0 (by simp [structFields?]) hq0]
-        exact this
-      · obtain ⟨h1, h2, h3, h4⟩ := lemma_mkInfo hf
-        refine ⟨[i], by simp, h1, ?_⟩
-        intro all h0
-        exact ⟨h, _, by simp [fieldAt, h0], h2, h3, h4⟩
-  | .ptr (.struct fs), f, hf => by
-    unfold flattenFld at hf
-    split at hf
-    · simp at hf
-    · split at hf
-      · obtain ⟨q, hq0, hq, hall⟩ := lemma_flattenFs P tag (pre ++ [i]) 0 fs f hf
-        refine ⟨i :: q, by simp, by simp [hq], ?_⟩
-        intro all h0
-        have := hall fs (fun k => by simp)
-        unfold Faithful at *
-        rw [lemma_fieldAt_cons (fs' := fs) h0 (by simp [structFields?]) hq0]
-        exact this
-      · obtain ⟨h1, h2, h3, h4⟩ := lemma_mkInfo hf
-        refine ⟨[i], by simp, h1, ?_⟩
-        intro all h0
-        exact ⟨h, _, by simp [fieldAt, h0], h2, h3, h4⟩
-  | .prim p, f, hf => by
-    simp only [flattenFld] at hf
-    split at hf
-    · simp at hf
-    · obtain ⟨h1, h2, h3, h4⟩ := lemma_mkInfo hf
-      exact ⟨[i], by simp, h1, fun all h0 => ⟨h, _, by simp [fieldAt, h0], h2, h3, h4⟩⟩
-  | .slice e, f, hf => by
-    simp only [flattenFld] at hf
-    split at hf
-    · simp at hf
-    · obtain ⟨h1, h2, h3, h4⟩ := lemma_mkInfo hf
-      exact ⟨[i], by simp, h1, fun all h0 => ⟨h, _, by simp [fieldAt, h0], h2, h3, h4⟩⟩
-  | .map e, f, hf => by
-    simp only [flattenFld] at hf
-    split at hf
-    · simp at hf
-    · obtain ⟨h1, h2, h3, h4⟩ := lemma_mkInfo hf
-      exact ⟨[i], by simp, h1, fun all h0 => ⟨h, _, by simp [fieldAt, h0], h2, h3, h4⟩⟩
-  | .ptr (.prim p), f, hf => by
-    simp only [flattenFld] at hf
-    split at hf
-    · simp at hf
-    · obtain ⟨h1, h2, h3, h4⟩ := lemma_mkInfo hf
-      exact ⟨[i], by simp, h1, fun all h0 => ⟨h, _, by simp [fieldAt, h0], h2, h3, h4⟩⟩
-  | .ptr (.ptr e), f, hf => by
-    simp only [flattenFld] at hf
-    split at hf
-    · simp at hf
-    · obtain ⟨h1, h2, h3, h4⟩ := lemma_mkInfo hf
-      exact ⟨[i], by simp, h1, fun all h0 => ⟨h, _, by simp [fieldAt, h0], h2, h3, h4⟩⟩
-  | .ptr (.slice e), f, hf => by
-    simp only [flattenFld] at hf
-    split at hf
-    · simp at hf
-    · obtain ⟨h1, h2, h3, h4⟩ := lemma_mkInfo hf
-      exact ⟨[i], by simp, h1, fun all h0 => ⟨h, _, by simp [fieldAt, h0], h2, h3, h4⟩⟩
-  | .ptr (.map e), f, hf => by
-    simp only [flattenFld] at hf
-    split at hf
-    · simp at hf
-    · obtain ⟨h1, h2, h3, h4⟩ := lemma_mkInfo hf
-      exact ⟨[i], by simp, h1, fun all h0 => ⟨h, _, by simp [fieldAt, h0], h2, h3, h4⟩⟩
-theorem lemma_flattenFs (P : Params) (tag : Tag) (pre : List Nat) :
-    ∀ (i : Nat) (fs : List Fld) (f : FieldInfo), f ∈ flattenFs P tag pre i fs →
-      ∃ q, q ≠ [] ∧ f.index = pre ++ q ∧ ∀ all : List Fld, (∀ k, all[i + k]? = fs[k]?) → Faithful all q f
-  | _, [], f, hf => by simp [flattenFs] at hf
-  | i, (h, t) :: rest, f, hf => by
-    simp only [flattenFs, List.mem_append] at hf
-    rcases hf with hf | hf
-    · obtain ⟨q, hq0, hq, hall⟩ := lemma_flattenFld P tag pre i h t f hf
-      exact ⟨q, hq0, hq, fun all ha => hall all (by simpa using ha 0)⟩
-    · obtain ⟨q, hq0, hq, hall⟩ := lemma_flattenFs P tag pre (i+1) rest f hf
-      refine ⟨q, hq0, hq, fun all ha => hall all (fun k => ?_)⟩
-      have := ha (k+1)
-      simpa [Nat.add_assoc, Nat.add_comm 1 k] using this
-end
 
 /-- **K04a, repaired code, all shapes.** The index path cached for every flattened field — at any
     embedding depth, through embedded structs and embedded pointers — leads to exactly that field
